@@ -247,7 +247,7 @@ class Unit:
            ctx_ok_or=(), external_body=False, props=None, safety_props=None, which=0,
            canary=False, rename=None, mode_exec=True, opens_invariants=None, no_unwind=False,
            sig_rewrites=(), header_attrs=(), assume_termination=False, container=None, bare=False,
-           no_body=False, ctx_sites=(), impl_which=0, synth=None, tail_proof=None, proof_label=None, transform=None, head_proof=None):
+           no_body=False, ctx_sites=(), impl_which=0, synth=None, tail_proof=None, proof_label=None, transform=None, head_proof=None, opt_rewrites=()):
         """cut a function from /repo and splice a contract in.
 
         key: 'Type::name' or 'name'.  impl: regex of the impl header type (default = Type from key).
@@ -310,6 +310,9 @@ class Unit:
             body, n = re.subn(pat, rep, body)
             if n == 0:
                 raise CutError(f'{relpath}: fn {key}: rewrite /{pat}/ no longer matches')
+            self.drop(f'fn {key}: /{pat}/ -> {rep!r}', n)
+        for pat, rep in opt_rewrites:
+            body, n = re.subn(pat, rep, body)
             self.drop(f'fn {key}: /{pat}/ -> {rep!r}', n)
         if re.search(r'\blet\s+\[', code_mask(body)):
             body = self._desugar_array_let(body)
